@@ -153,6 +153,9 @@ Definition meth_name (m : meth) : string :=
   | MLazyNames => "names" | MKeyList => "_key_list" | MHasExclusive => "_has_exclusive_keys" | MLazyGetStr => "_get_str"
   end.
 Definition meth_eqb (a b : meth) : bool := String.eqb (meth_name a) (meth_name b).
+Definition all_meths : list meth :=
+  [MNestedKeys; MValuesList; MItemsList; MSortedKeys; MFlattenKeys; MUnflattenKeys; MDetach; MDtype; MDepth; MBytes; MParamCount;
+   MAddBatchDim; MLazyNames; MKeyList; MHasExclusive; MLazyGetStr].
 
 Record centry := { e_meth : meth; e_key : ckey; e_val : cval;
                    e_args : list arg; e_kwargs : list (string * arg) }.   (* ghost: the call that created the entry *)
@@ -451,11 +454,12 @@ Definition cache_lookup (c : list centry) (m : meth) (k : ckey) : option centry 
 Definition is_tensor_result (v : cval) : bool := match v with VTensor => true | _ => false end.
 Definition is_raise (v : cval) : bool := match v with VRaise => true | _ => false end.
 
-Definition set_node (s : state) (n : node) : state :=
-  {| nodes := map (fun x => if path_eqb (n_path x) (n_path n) then n else x) (nodes s); leaves := leaves s; store := store s |}.
 Definition with_cache (n : node) (c : list centry) : node :=
   {| n_path := n_path n; n_uid := n_uid n; n_kind := n_kind n; n_flag := n_flag n; n_parents := n_parents n;
      n_memmap := n_memmap n; n_meta := n_meta n; n_cache := c |}.
+Definition add_entry (s : state) (p : path) (e : centry) : state :=
+  {| nodes := map (fun x => if path_eqb (n_path x) p then with_cache x (e :: n_cache x) else x) (nodes s);
+     leaves := leaves s; store := store s |}.
 
 Inductive access := Hit | Miss | Bypass.     (* Bypass: not locked — the cache is neither read nor written *)
 
@@ -486,8 +490,7 @@ Definition decorate (s : state) (p : path) (m : meth) (args : list arg) (kwargs 
         | Some e => (s, Some (Hit, e_val e))
         | None =>
             if is_tensor_result v || is_raise v then (s, Some (Miss, v))          (* "we don't cache tensors" *)
-            else (set_node s (with_cache n ({| e_meth := m; e_key := k; e_val := v; e_args := args; e_kwargs := kwargs |} :: n_cache n)),
-                  Some (Miss, v))
+            else (add_entry s p {| e_meth := m; e_key := k; e_val := v; e_args := args; e_kwargs := kwargs |}, Some (Miss, v))
         end
   end.
 
@@ -608,6 +611,12 @@ Definition remove_under (s : state) (p : path) : state :=
      leaves := filter (fun ql => negb (is_prefix p (fst ql))) (leaves s);
      store := store s |}.
 
+(* what td.set(key, value) discards when key held a nested tensordict: the node and everything below it *)
+Definition remove_below (s : state) (p : path) : state :=
+  {| nodes := filter (fun n => negb (is_prefix p (n_path n))) (nodes s);
+     leaves := filter (fun ql => negb (proper_prefix p (fst ql))) (leaves s);
+     store := store s |}.
+
 Definition parent_of (p : path) : path := removelast p.
 
 Definition owner_locked (s : state) (p : path) : option bool :=
@@ -652,7 +661,7 @@ Definition step (fx : fixes) (hooked : bool) (s : state) (o : op) : state * outc
       match p, owner_locked s p with
       | [], _ | _, None => (s, NoSuchTarget)
       | _, Some true => (s, RaisedLock)
-      | _, Some false => (set_leaf (if is_node_path s p then remove_under s p else s) p l, Done)
+      | _, Some false => (set_leaf (remove_below s p) p l, Done)
       end
   | OSetNode p uid meta =>
       match p, owner_locked s p with
